@@ -413,6 +413,14 @@ pub fn run_c10(tier: &str, seed: u64, model: &Model, corpus_lines: Vec<String>, 
         let c = MinCase { recs, w: 0, m: 10, threads: 2, sched: "free".into() };
         run_one(&c, "contigs-whole-record", &mut rep, &mut traces, &mut branching);
     }
+    // whole-record mode on a record of more than 2^20 bases: a window of a million m-mers (expected line from the closed form
+    // that w0_single_window proves; see the driver)
+    {
+        let l = (1usize << 20) + rng.range(2_000, 60_000) as usize;
+        let recs = vec![gen::clean_seq(&mut rng, 90, gen::Flavor::Uniform), gen::clean_seq(&mut rng, l, gen::Flavor::Uniform)];
+        let c = MinCase { recs, w: 0, m: 16, threads: 2, sched: "free".into() };
+        run_one(&c, "megabase-whole-record", &mut rep, &mut traces, &mut branching);
+    }
     rep.traces_validated = traces;
     rep.schedules_enumerated = n_sched;
     rep
